@@ -16,7 +16,7 @@ vars == <<l, page, lost>>
 
 ShownSame(m, r) ==
     /\ m.t = r.t /\ m.line = r.line
-    /\ (m.t = "print" => (m.unk \/ m.text = r.text))
+    /\ (m.t \in {"print", "error"} => (m.unk \/ m.text = r.text))          \* an error's text is its source line and caret
     /\ (m.t \in {"error", "warning"} => m.what = r.what)
 
 ApplyEvent(P, e) ==
